@@ -164,15 +164,18 @@ def main():
                              "case: %s\nimpl: %s\nmodel: %s" % (c[:500], il[:300], ml[:300]))
             if c in corpus_set:
                 # corpus lines (minimized earlier failures) need not have the shape the module's generator produces:
-                # they are decided by the plain comparison with the model (and the panic / hang markers)
+                # they are decided by the module's oracle where it accepts them, else by the plain comparison with the model
                 if il.startswith(("PANIC", "HANG", "CRASH")):
                     why = "implementation %s" % il.split(" ")[0]
                 else:
-                    pj = getattr(mod, "project", lambda x: x)
                     try:
-                        why = None if (ml == "-" or pj(il) == pj(ml)) else "implementation and model disagree"
+                        why = mod.oracle(c, il, ml)          # the module's own notion of agreement (it knows what is compared)
                     except Exception:
-                        why = None if il == ml else "implementation and model disagree"
+                        pj = getattr(mod, "project", lambda x: x)
+                        try:
+                            why = None if (ml == "-" or pj(il) == pj(ml)) else "implementation and model disagree"
+                        except Exception:
+                            why = None if il == ml else "implementation and model disagree"
                 if why:
                     fails.append((c, il, ml, why))
                 continue
